@@ -280,7 +280,7 @@ def reexecute(trace: dict) -> dict:
     from spacepackets.util import ByteFieldGenerator
 
     from cfdppy.request import PutRequest
-    from world import MODE, Clock, World
+    from world import MODE, Clock, World, xopts_kw
     w = World(trace["cfg"])
     w.pair = trace["kind"] == "pair"
     try:
@@ -298,7 +298,7 @@ def reexecute(trace: dict) -> dict:
                                  source_file=None if sf is None else Path(sf), dest_file=None if df is None else Path(df),
                                  trans_mode=None if a["mode"] == "none" else MODE[a["mode"]],
                                  closure_requested=None if a["closure"] == "none" else a["closure"] == "true",
-                                 msgs_to_user=[MessageToUserTlv(bytes(m)) for m in a["msgs"]] or None)
+                                 msgs_to_user=[MessageToUserTlv(bytes(m)) for m in a["msgs"]] or None, **xopts_kw(a.get("xopts")))
                 w.call(e["side"], "put", req, take=take)
             elif e["call"] == "fsm":
                 w.call(e["side"], "fsm", None if a["t"] == "none" else w.conc(a), take=take, wrej=e["wrej"])
